@@ -114,7 +114,15 @@ class _Stuck(BaseException):
 
 T0 = 1700000000.0          # fake clock origin (s)
 TICK = 0.001               # every top-level select costs this much fake time
-WATCHDOG_S = 20            # wall clock per run
+WATCHDOG_S = 20            # wall clock per run (shrinks after the first hit, see watchdog_seconds)
+EOF_READ_BUDGET = 300      # reads of the ssh pipe after it reached EOF
+CALL_BUDGET = 60000        # boundary calls per run
+EVENT_BUDGET = 200000      # trace entries per run
+_watchdog_hits = [0]
+
+
+def watchdog_seconds():
+    return WATCHDOG_S if _watchdog_hits[0] == 0 else (3 if _watchdog_hits[0] < 3 else 1)
 LEFT_OVER_S = 2.0          # fake seconds the rules may outlive ssh
 
 
@@ -183,16 +191,26 @@ class World:
         self.close_time = None
         self.passes = 0
         self.probe_times = []
+        self.eof_reads = 0        # reads of the ssh pipe that found it at EOF
+
+    def give_up(self, reason, what):
+        if not self.stuck:
+            self.stuck = (reason, len(self.events))
+        raise _Stuck(what)
 
     def call(self, ev):
         idx = self.calls
         self.calls += 1
+        if idx > CALL_BUDGET or len(self.events) > EVENT_BUDGET:
+            self.give_up('calls', 'boundary-call budget used up')
         self.events.append(ev)
         k = self.faults.get(idx)
         if k:
             raise make_exc(k, self.helpers)
 
     def mark(self, ev):
+        if len(self.events) > EVENT_BUDGET:
+            self.give_up('calls', 'trace budget used up')
         self.events.append(ev)
 
     # liveness stub: also the clock of the scripted world
@@ -255,6 +273,11 @@ class PipeR:
 
     def read(self, n=-1):
         w = self.w
+        if not w.chunks:
+            # a stream that has ended answers b'' for ever; code that keeps asking never ends
+            w.eof_reads += 1
+            if w.eof_reads > EOF_READ_BUDGET:
+                w.give_up('eof-reads', 'the ssh pipe was read %d times after it had reached EOF' % w.eof_reads)
         w.call('mread' if w.polled0 else 'hsread')
         if not w.chunks:
             if w.polled0 and not w.eof:
@@ -655,7 +678,9 @@ def run_real(script, faults, realfw=False):
         return real_runonce(handlers, mux)
 
     def on_alarm(signum, frame):
-        w.stuck = ('watchdog', len(w.events))
+        _watchdog_hits[0] += 1
+        if not w.stuck:
+            w.stuck = ('watchdog', len(w.events))
         raise _Stuck('wall-clock watchdog')
 
     def connect(*a, **k):
@@ -696,7 +721,7 @@ def run_real(script, faults, realfw=False):
     if script.get('history') is not None:
         w.grant = 4096
     old_alarm = signal.signal(signal.SIGALRM, on_alarm)
-    signal.setitimer(signal.ITIMER_REAL, WATCHDOG_S)
+    signal.setitimer(signal.ITIMER_REAL, watchdog_seconds())
     client.FirewallClient = RecFw
     if realfw:
         client.FirewallClient = RealFw
@@ -949,19 +974,27 @@ def oracle(script, faults, events, outcome, w):
         reason, at = w.stuck
         before = ev[:at]
         open_then = 'close' not in before
-        if w.dead_rv is not None and started and open_then:
+        how = {'sleep': 'went to sleep in select() with nothing that could wake it',
+               'budget': 'used up its pass budget', 'watchdog': 'ran into the wall-clock watchdog',
+               'eof-reads': 'kept reading the ssh pipe after it had reached EOF (%d reads)' % w.eof_reads,
+               'calls': 'used up its boundary-call budget'}[reason]
+        tail = ' '.join(before[-12:])
+        if not w.polled0:
+            bad.append(('C12:handshake-never-ends',
+                        'a server stream that ends before the handshake is complete gives Fatal and the control channel is closed',
+                        'start-up %s; stream %r; %d boundary calls, pfile %s; last events: %s'
+                        % (how, [hexb(c) for c in script['hs']], w.calls, 'open' if open_then else 'closed', tail)))
+        elif w.dead_rv is not None and started and open_then:
             bad.append(('C12:stuck-after-ssh-death',
                         'once ssh has exited the main loop ends and the control channel is closed',
                         'ssh exited with %r at t=%.3fs; the loop then %s at t=%.3fs after %d passes (liveness probes at %s) '
                         'with the helper started and pfile open'
-                        % (w.dead_rv, (w.death_time or T0) - T0,
-                           {'sleep': 'went to sleep in select() with nothing that could wake it',
-                            'budget': 'used up its pass budget', 'watchdog': 'ran into the wall-clock watchdog'}[reason],
+                        % (w.dead_rv, (w.death_time or T0) - T0, how,
                            w.now - T0, w.passes, ['%.3f' % (t - T0) for t in w.probe_times][-4:])))
         else:
             bad.append(('C12:loop-does-not-end', 'every scripted session ends',
-                        'aborted (%s) after %d passes at t=%.3fs; ssh dead=%r helper started=%r'
-                        % (reason, w.passes, w.now - T0, w.dead_rv, started)))
+                        'aborted (%s) after %d passes at t=%.3fs; ssh dead=%r helper started=%r; last events: %s'
+                        % (how, w.passes, w.now - T0, w.dead_rv, started, tail)))
     elif w.death_time is not None and started and w.close_time is not None and not faults:
         if starts[0] < closes[0] if closes else False:
             if w.close_time - max(w.death_time, 0) > LEFT_OVER_S and \
@@ -1113,8 +1146,10 @@ def run_case(ctx, script, faults, cases):
     if eof_loop_continues(ev, w):
         ctx.hist('tunnel-eof-loop-continues')
     for key, exp, obs in oracle(script, faults, ev, outcome, w):
-        ctx.violation(key, case=dict(script=ser_script(script), faults={str(k): v for k, v in faults.items()}),
-                      expected=exp, observed=obs + ' | trace: ' + ' '.join(ev) + ' ' + outcome, kind='faults')
+        if len(ctx.violations) < 400:
+            ctx.violation(key, case=dict(script=ser_script(script), faults={str(k): v for k, v in faults.items()}),
+                          expected=exp, observed=obs + ' | trace: ' + ' '.join(ev[:120]) +
+                          (' ... ' if len(ev) > 120 else ' ') + outcome, kind='faults')
     c = Case()
     c.script, c.faults = script, faults
     c.line = script_line(script, faults)
@@ -1696,4 +1731,4 @@ def replay(ctx, rep):
     bad = oracle(s, faults, ev, outcome, w)
     key = rep.get('key')
     same = [b for b in bad if key is None or b[0] == key or key == 'C12:spec-monitor']
-    return bool(same), 'trace: %s %s; oracle: %s' % (' '.join(ev), outcome, '; '.join('%s (%s)' % (b[0], b[2][:160]) for b in bad) or 'silent')
+    return bool(same), 'trace: %s%s %s; oracle: %s' % (' '.join(ev[:80]), ' ...' if len(ev) > 80 else '', outcome, '; '.join('%s (%s)' % (b[0], b[2][:160]) for b in bad) or 'silent')
